@@ -164,6 +164,7 @@ pub fn attempt(bw: &mut Bw, rng: &mut Rng, rep: &mut Report, lines: Option<&mut 
     let c0 = claims(&bw.w, &bw.depositors, &lb.bank);
     let (lv0, iv0) = (bw.w.token_amount(&lb.liquidity_vault), bw.w.token_amount(&lb.insurance_vault));
     let sl0 = bits(bank0.total_liability_shares);
+    let slack0 = crate::scen::slack_of(&bw.w, &lb);
     let before = bw.w.accounts.clone();
     let risk = bw.w.remaining_in_slot_order(&bw.victim);
     let r = bw.w.exec(&ix::handle_bankruptcy(&lb, signer, bw.victim, risk));
@@ -260,6 +261,13 @@ pub fn attempt(bw: &mut Bw, rng: &mut Rng, rep: &mut Report, lines: Option<&mut 
                 }
                 if socialized == big(0) && asv1 != asv0 {
                     rep.fail(format!("C07 fully insured bad debt still changed the deposit share value {} -> {}: {}", asv0, asv1, tag));
+                }
+            }
+            // ---- C01: unless the bank is wiped out, the solvency margin does not fall (theorem bankruptcy_step)
+            if !wiped && asv1 != 0 {
+                let slack1 = crate::scen::slack_of(&bw.w, &lb);
+                if slack1 < slack0 {
+                    rep.fail(format!("C01 solvency margin fell by {} in a bankruptcy that did not wipe the bank: {}", &slack0 - &slack1, tag));
                 }
             }
             // ---- debt cleared, account disabled, ledger follows
